@@ -203,6 +203,14 @@ func (g *TypeGen) protoStruct(depth int) reflect.Type {
 			}
 		case 3:
 			k := []reflect.Type{reflect.TypeOf(""), reflect.TypeOf(0), reflect.TypeOf(int32(0)), reflect.TypeOf(uint64(0)), reflect.TypeOf(false)}[g.r.Intn(5)]
+			if g.r.Chance(20) {
+				// not protobuf's idea of a key, but plenc's proto map form takes message keys too:
+				// key fields that are zero are omitted, so successive keys exercise the key scratch
+				k = reflect.TypeOf(KeyS{})
+				if g.r.Bool() {
+					k = reflect.PointerTo(k)
+				}
+			}
 			var v reflect.Type
 			if depth > 0 && g.r.Bool() {
 				v = g.protoStruct(depth - 1)
